@@ -5,6 +5,7 @@ Import ListNotations.
 From Verif Require Import C15.Tree C15.Opt C15.Allowed C15.Corr C15.Sound C15.Refuted Gen.Tables.
 From Verif Require C01.Lisp C01.Gen C15.Sem C15.SemL C01L.LLisp C01L.LPy C01L.LGen C01L.LTop.
 From Verif Require C15.SemX C01X.XLisp C01X.XPy C01X.XGen C01X.XTop.
+From Verif Require C15.SemC C01C.CLisp C01C.CPy C01C.CGen C01C.CTop.
 Local Open Scope N_scope.
 
 (** Obligations on the tables regenerated from optimizer.py on every run: each operator
@@ -82,6 +83,19 @@ Example C15_exception_rules_fire :
    SemX.xopt d <> d).
 Proof. exact SemX.xopt_nonvacuous. Qed.
 
+(** the same on the subset with function definitions and calls: statements are also dropped
+    inside function bodies, so the optimised run builds different function values; the two runs
+    are related heap by heap (SemC.OH) and yield the same trace and observable value; composed
+    with the simulation theorem of C01C *)
+Theorem C15_stmt_rewrites_preserve_closures : forall m fid l H H1 t H',
+  CPy.cexec m fid H l = Some (H1, t) -> SemC.OH H H' ->
+  exists H1', CPy.cexec m fid H' (SemC.copt l) = Some (H1', t) /\ SemC.OH H1 H1'.
+Proof. exact SemC.copt_stmts_preserve. Qed.
+Theorem C15_optimized_compile_correct_closures_partial : forall fuel e v tr,
+  CLisp.ceval fuel [] e = Some (v, tr) -> CGen.hazard_free e = true ->
+  exists m, forall m', (m <= m')%nat -> SemC.crun_opt m' e = Some (CLisp.obs_of v, tr).
+Proof. exact SemC.optimized_closures_compile_correct. Qed.
+
 (** REFUTED clauses: the model of the pass (tied to the code by the correspondence run)
     performs rewrites that are not allowed. *)
 Theorem C15_is_to_eq_not_allowed : ~ allowed Refuted.w_is (Opt.opt Refuted.w_is).
@@ -124,3 +138,5 @@ Print Assumptions C15_try_without_finally_rejected.
 Print Assumptions C15_stmt_rewrites_preserve_exceptions.
 Print Assumptions C15_optimized_compile_correct_exceptions_partial.
 Print Assumptions C15_exception_rules_fire.
+Print Assumptions C15_stmt_rewrites_preserve_closures.
+Print Assumptions C15_optimized_compile_correct_closures_partial.
